@@ -141,50 +141,206 @@ PrefixFree(defs) ==
         ~(PrefixOf(defs[i].len, defs[i].lo, m) <= defs[j].hi /\ defs[j].lo <= PrefixOf(defs[i].len, defs[i].hi, m))
 
 -----------------------------------------------------------------------------
-(* Producer: the CMap program text of a definition sequence (used by MC_CMap to emit replay cases).
-   style = [lower: hex digits a-f, sp: separator between tokens, nl: line end, usp: blank between
-   the UTF-16 units of a target, head: 1..3 header variant]; sections are maximal runs of one kind,
-   cut after 100 entries. *)
+(* Producer: the CMap program text of a definition sequence, as a TOKEN sequence with a GAP after   *)
+(* every token (used by MC_CMap to emit replay cases; the record driver of the harness mirrors it).  *)
+(*                                                                                                    *)
+(* White space (ISO 32000-1 7.2.2, PLRM 3.2): NUL TAB LF FF CR SP; a comment (% to the line end) is   *)
+(* white space too.  A separator is a sequence of ATOMS                                               *)
+(*     sp tab | lf cr crlf | ff nul | cmt                                                             *)
+(* Between two tokens any non-empty separator is legal, and the empty one as well when the left token *)
+(* ends or the right token begins with a delimiter  ( ) < > [ ] / %  ("self-delimited gap").  Inside  *)
+(* a hexadecimal string any white space (no comment) may stand between any two digits and next to   *)
+(* the brackets.  A section may have zero entries.  The CMap dictionary may have further entries      *)
+(* (/WMode, /CMapVersion, /XUID, /UIDOffset) next to /CIDSystemInfo, /CMapName, /CMapType.            *)
+(*                                                                                                    *)
+(* A token is [t, b, e, g, c, d]: text; begins / ends with a delimiter; class of the gap after it;    *)
+(* the combinator lopdf's grammar has at that gap AS THE CODE IS (impl-shaped annotation: s0 s1 =     *)
+(* blanks only, m0 m1 = blanks, line ends, comments; 0 = may be empty, 1 = at least one); default     *)
+(* separator.  A style sty = [k, a, b, s] departs from the defaults in ONE respect:                   *)
+(*   canon                              nothing                                                      *)
+(*   gap   a = gap class, s = atoms     every gap of that class gets the separator s                 *)
+(*   hex   a = src|tgt, b = position, s white space inside hexadecimal strings                        *)
+(*   empty a = where                    a section with zero entries                                   *)
+(*   head  a = variant                  form / further entries of the CMap dictionary                 *)
+(*   font  a = /Encoding form           what stands next to /ToUnicode in the font dictionary         *)
+(* tv = the tolerated variation chosen from the definitions (hex case, blanks, line ends).            *)
+
+BlankAtoms == {"sp", "tab"}
+EolAtoms   == {"lf", "cr", "crlf"}
+FfNulAtoms == {"ff", "nul"}
+WsAtoms    == BlankAtoms \cup EolAtoms \cup FfNulAtoms
+AtomText(a) == CASE a = "sp" -> " " [] a = "tab" -> "\t" [] a = "lf" -> "\n" [] a = "cr" -> "\r" [] a = "crlf" -> "\r\n"
+                 [] a = "ff" -> "\f" [] a = "nul" -> "~"        \* "~" stands for the byte 00 (no NUL in a TLA+ string; the harness substitutes)
+                 [] a = "cmt" -> "%c\n"
+SepText(as) == FoldLeft(LAMBDA s, a : s \o AtomText(a), "", as)
+SeqSet(q) == {q[i] : i \in 1..Len(q)}
+
+Canon == [k |-> "canon", a |-> "", b |-> "", s |-> <<>>]
+SP == <<"sp">>
 
 HexU == <<"0","1","2","3","4","5","6","7","8","9","A","B","C","D","E","F">>
 HexL == <<"0","1","2","3","4","5","6","7","8","9","a","b","c","d","e","f">>
-H2(b, st) == LET T == IF st.lower THEN HexL ELSE HexU IN T[(b \div 16) + 1] \o T[(b % 16) + 1]
-CodeTok(len, code, st) == "<" \o FoldLeft(LAMBDA s, b : s \o H2(b, st), "", BytesOf(len, code)) \o ">"
-UnitsTok(us, st) ==
-    "<" \o FoldLeft(LAMBDA s, i : s \o (IF i > 1 /\ st.usp THEN " " ELSE "") \o H2(us[i] \div 256, st) \o H2(us[i] % 256, st),
-                    "", [i \in 1..Len(us) |-> i]) \o ">"
-ArrTok(aa, st) ==
-    "[" \o FoldLeft(LAMBDA s, i : s \o (IF i > 1 THEN " " ELSE "") \o UnitsTok(aa[i], st), "", [i \in 1..Len(aa) |-> i]) \o "]"
-EntryText(d, st) ==
-    IF d.kind = "char"
-    THEN CodeTok(d.len, d.lo, st) \o st.sp \o UnitsTok(d.t.u, st) \o st.nl
-    ELSE CodeTok(d.len, d.lo, st) \o st.sp \o CodeTok(d.len, d.hi, st) \o st.sp
-         \o (IF d.t.k = "str" THEN UnitsTok(d.t.u, st) ELSE ArrTok(d.t.a, st)) \o st.nl
+\* the two digits of byte b with the separator nib between them
+H2(b, tv, nib) == LET T == IF tv.lower THEN HexL ELSE HexU IN T[(b \div 16) + 1] \o nib \o T[(b % 16) + 1]
+\* separator text of hex position p in a string of kind w (src / tgt) under style sty
+HexSep(sty, w, p) == IF sty.k = "hex" /\ sty.a = w /\ sty.b = p THEN SepText(sty.s) ELSE ""
+CodeTok(len, code, tv, sty) ==
+    LET bs == BytesOf(len, code) IN
+    "<" \o HexSep(sty, "src", "lead")
+        \o FoldLeft(LAMBDA s, i : s \o (IF i > 1 THEN HexSep(sty, "src", "byte") ELSE "") \o H2(bs[i], tv, HexSep(sty, "src", "nib")),
+                    "", [i \in 1..len |-> i])
+        \o HexSep(sty, "src", "trail") \o ">"
+UnitsTok(us, tv, sty) ==
+    "<" \o HexSep(sty, "tgt", "lead")
+        \o FoldLeft(LAMBDA s, i : s \o (IF i > 1 THEN (IF sty.k = "hex" /\ sty.a = "tgt" /\ sty.b = "unit" THEN SepText(sty.s)
+                                                       ELSE IF tv.usp THEN " " ELSE "") ELSE "")
+                                    \o H2(us[i] \div 256, tv, HexSep(sty, "tgt", "nib")) \o HexSep(sty, "tgt", "byte")
+                                    \o H2(us[i] % 256, tv, HexSep(sty, "tgt", "nib")),
+                    "", [i \in 1..Len(us) |-> i])
+        \o HexSep(sty, "tgt", "trail") \o ">"
 
-SectionText(kind, n, body, st) ==
-    IF n = 0 THEN "" ELSE ToString(n) \o " beginbf" \o kind \o st.nl \o body \o "endbf" \o kind \o st.nl
-SectStep(st, acc, d) ==
+Tok(t, b, e, g, c, d) == [t |-> t, b |-> b, e |-> e, g |-> g, c |-> c, d |-> d]
+Word(t, g, c, d) == Tok(t, FALSE, FALSE, g, c, d)            \* a regular token (name-like, number)
+Name(t, g, c, d) == Tok(t, TRUE, FALSE, g, c, d)             \* /Name
+Delim(t, g, c, d) == Tok(t, TRUE, TRUE, g, c, d)             \* <...>  [  ]  <<...>>
+
+EntryToks(d, tv, sty) ==
+    LET tgt(g, dd) == IF d.t.k = "str" THEN <<Delim(UnitsTok(d.t.u, tv, sty), g, "m1", dd)>>
+                      ELSE <<Delim("[", "arr", "m0", <<>>)>>
+                           \o [i \in 1..Len(d.t.a) |-> Delim(UnitsTok(d.t.a[i], tv, sty), "arr", "m0", IF i < Len(d.t.a) THEN SP ELSE <<>>)]
+                           \o <<Delim("]", g, "m1", dd)>>
+    IN IF d.kind = "char"
+       THEN <<Delim(CodeTok(d.len, d.lo, tv, sty), "opnd", "s0", tv.sp)>> \o tgt("ent", tv.nl)
+       ELSE <<Delim(CodeTok(d.len, d.lo, tv, sty), "opnd", "s0", tv.sp), Delim(CodeTok(d.len, d.hi, tv, sty), "opnd", "s0", tv.sp)>>
+            \o tgt("ent", tv.nl)
+
+SectionToks(kind, n, body, tv) ==
+    <<Word(ToString(n), "cnt", "s1", SP), Word("beginbf" \o kind, "op", "m1", tv.nl)>> \o body
+    \o <<Word("endbf" \o kind, "end", "m1", tv.nl)>>
+SectStep(tv, sty, acc, d) ==
     IF acc.n > 0 /\ (acc.kind # d.kind \/ acc.n = 100)
-    THEN [txt |-> acc.txt \o SectionText(acc.kind, acc.n, acc.body, st), kind |-> d.kind, n |-> 1, body |-> EntryText(d, st)]
-    ELSE [acc EXCEPT !.kind = d.kind, !.n = @ + 1, !.body = @ \o EntryText(d, st)]
-SectionsText(defs, st) ==
-    LET r == FoldLeft(LAMBDA acc, d : SectStep(st, acc, d), [txt |-> "", kind |-> "char", n |-> 0, body |-> ""], defs)
-    IN r.txt \o SectionText(r.kind, r.n, r.body, st)
+    THEN [toks |-> acc.toks \o SectionToks(acc.kind, acc.n, acc.body, tv), kind |-> d.kind, n |-> 1, body |-> EntryToks(d, tv, sty)]
+    ELSE [acc EXCEPT !.kind = d.kind, !.n = @ + 1, !.body = @ \o EntryToks(d, tv, sty)]
+SectionsToks(defs, tv, sty) ==
+    LET r == FoldLeft(LAMBDA acc, d : SectStep(tv, sty, acc, d), [toks |-> <<>>, kind |-> "char", n |-> 0, body |-> <<>>], defs)
+        secs == r.toks \o (IF r.n > 0 THEN SectionToks(r.kind, r.n, r.body, tv) ELSE <<>>)
+        empty(kind) == SectionToks(kind, 0, <<>>, tv)
+    IN IF sty.k # "empty" THEN secs
+       ELSE CASE sty.a = "char.first"  -> empty("char") \o secs
+              [] sty.a = "range.first" -> empty("range") \o secs
+              [] sty.a = "char.last"   -> secs \o empty("char")
+              [] OTHER                 -> secs \o empty("range")
+
+MetaToks(tv, sty) ==
+    LET h == IF sty.k = "head" THEN sty.a ELSE ""
+        sysd == <<Name("/CIDSystemInfo", "meta", "m0", SP),
+                  Delim("<< /Registry (Adobe) /Ordering (UCS) /Supplement 0 >>", "meta", "m1", SP), Word("def", "meta", "m1", tv.nl)>>
+        sysp == <<Name("/CIDSystemInfo", "meta", "m0", SP),
+                  Word("3 dict dup begin\n  /Registry (Adobe) def\n  /Ordering (UCS) def\n  /Supplement 0 def\nend", "meta", "m1", SP),
+                  Word("def", "meta", "m1", tv.nl)>>
+        nam  == <<Name("/CMapName", "meta", "s0", SP), Name("/Adobe-Identity-UCS", "meta", "s1", SP), Word("def", "meta", "m1", tv.nl)>>
+        typ  == <<Name("/CMapType", "meta", "s1", SP), Word("2", "meta", "s1", SP), Word("def", "meta", "m1", tv.nl)>>
+        key(k, v) == <<Name(k, "meta", "s1", SP), v, Word("def", "meta", "m1", tv.nl)>>
+    IN CASE h = "dictdup"   -> sysp \o nam \o typ
+         [] h = "order"     -> typ \o sysd \o nam
+         [] h = "wmode"     -> sysd \o nam \o typ \o key("/WMode", Word("0", "meta", "s1", SP))
+         [] h = "version"   -> sysd \o nam \o key("/CMapVersion", Word("1.000", "meta", "s1", SP)) \o typ
+         [] h = "xuid"      -> sysd \o nam \o typ \o key("/XUID", Delim("[1 10 25404 9999]", "meta", "s1", SP))
+         [] h = "uidoffset" -> key("/UIDOffset", Word("0", "meta", "s1", SP)) \o sysd \o nam \o typ
+         [] OTHER           -> IF tv.head = 2 THEN typ \o nam ELSE sysd \o nam \o typ
+ExtraKeyHeads == {"wmode", "version", "xuid", "uidoffset"}
 
 \* cs: sequence of <<len, lo, hi>> codespace ranges
-Program(defs, cs, st) ==
-    (CASE st.head = 1 -> "/CIDInit /ProcSet findresource begin" \o st.nl
-       [] st.head = 2 -> "%!PS-Adobe-3.0 Resource-CMap\n/CIDInit/Procset findresource begin" \o st.nl
-       [] OTHER       -> "\n /CIDInit\t/ProcSet  findresource\tbegin \n")
-    \o "12 dict begin" \o st.nl \o "begincmap" \o st.nl
-    \o (IF st.head = 2 THEN "/CMapType 2 def\n/CMapName /Adobe-Identity-UCS def\n"
-        ELSE "/CIDSystemInfo << /Registry (Adobe) /Ordering (UCS) /Supplement 0 >> def" \o st.nl
-             \o "/CMapName /Adobe-Identity-UCS def" \o st.nl \o "/CMapType 2 def" \o st.nl)
-    \o ToString(Len(cs)) \o " begincodespacerange" \o st.nl
-    \o FoldLeft(LAMBDA s, r : s \o CodeTok(r[1], r[2], st) \o st.sp \o CodeTok(r[1], r[3], st) \o st.nl, "", cs)
-    \o "endcodespacerange" \o st.nl
-    \o SectionsText(defs, st)
-    \o "endcmap" \o st.nl \o "CMapName currentdict /CMap defineresource pop" \o st.nl \o "end" \o st.nl \o "end" \o st.nl
+ProgramToks(defs, cs, tv, sty) ==
+    <<Name("/CIDInit", "prolog", "s0", IF tv.head = 2 THEN <<>> ELSE SP),
+      Name(IF tv.head = 2 THEN "/Procset" ELSE "/ProcSet", "prolog", "s1", SP),
+      Word("findresource", "prolog", "s1", SP), Word("begin", "prolog", "m1", tv.nl),
+      Word("12", "prolog", "s1", SP), Word("dict", "prolog", "s1", SP), Word("begin", "prolog", "m1", tv.nl),
+      Word("begincmap", "prolog", "m1", tv.nl)>>
+    \o MetaToks(tv, sty)
+    \o <<Word(ToString(Len(cs)), "cs.cnt", "s1", SP), Word("begincodespacerange", "cs.op", "m1", tv.nl)>>
+    \o FoldLeft(LAMBDA q, r : q \o <<Delim(CodeTok(r[1], r[2], tv, sty), "cs.pair", "s0", tv.sp),
+                                     Delim(CodeTok(r[1], r[3], tv, sty), "cs.ent", "m1", tv.nl)>>, <<>>, cs)
+    \o <<Word("endcodespacerange", "cs.end", "m1", tv.nl)>>
+    \o SectionsToks(defs, tv, sty)
+    \o <<Word("endcmap", "trailer", "m1", tv.nl), Word("CMapName", "trailer", "s1", SP), Word("currentdict", "trailer", "s1", SP),
+         Name("/CMap", "trailer", "s1", SP), Word("defineresource", "trailer", "s1", SP), Word("pop", "trailer", "m1", tv.nl),
+         Word("end", "trailer", "m1", tv.nl), Word("end", "eof", "m0", tv.nl)>>
+
+BfGaps  == {"cnt", "op", "opnd", "ent", "arr", "end"}
+HdrGaps == {"prolog", "meta", "cs.cnt", "cs.op", "cs.pair", "cs.ent", "cs.end", "trailer", "eof"}
+
+\* gap i of a token sequence is self-delimited
+SelfDelim(toks, i) == toks[i].e \/ i = Len(toks) \/ toks[i + 1].b
+\* the separator written in gap i: the style's where it applies and is legal there, else the default
+GapAtoms(toks, i, sty) ==
+    IF sty.k = "gap" /\ sty.a = toks[i].g /\ (sty.s # <<>> \/ SelfDelim(toks, i)) THEN sty.s ELSE toks[i].d
+
+Program(defs, cs, tv, sty) ==
+    LET toks == ProgramToks(defs, cs, tv, sty) IN
+    (IF tv.head = 2 THEN "%!PS-Adobe-3.0 Resource-CMap\n" ELSE "")
+    \o FoldLeft(LAMBDA s, i : s \o toks[i].t \o SepText(GapAtoms(toks, i, sty)), "", [i \in 1..Len(toks) |-> i])
+
+\* ---- declarative: which styles are inside the domain, and how a style is called
+GapStyleLegal(sty) == \A a \in SeqSet(sty.s) : a \in WsAtoms \cup {"cmt"}
+HexStyleLegal(sty) == sty.s # <<>> /\ \A a \in SeqSet(sty.s) : a \in WsAtoms
+StyleLegal(sty) ==
+    CASE sty.k = "gap" -> sty.a \in BfGaps \cup HdrGaps /\ GapStyleLegal(sty)
+      [] sty.k = "hex" -> /\ sty.a \in {"src", "tgt"} /\ HexStyleLegal(sty)
+                          /\ sty.b \in (IF sty.a = "src" THEN {"lead", "nib", "byte", "trail"} ELSE {"lead", "nib", "byte", "unit", "trail"})
+      [] OTHER -> TRUE
+
+\* /Encoding forms next to /ToUnicode.  ISO 32000-1 9.10.2: the ToUnicode CMap comes first, whatever /Encoding says.
+IdentityForms == {"absent", "Identity-H", "Identity-V"}
+BaseForms     == {"StandardEncoding", "MacRomanEncoding", "WinAnsiEncoding", "MacExpertEncoding"}
+CMapNameForms == {"UniJIS-UTF16-H", "90ms-RKSJ-H", "UniGB-UCS2-H", "UniGB-UTF16-H", "GBK-EUC-H", "Custom-Name"}
+DictForms     == {"dict.diff", "dict.base.diff", "dictref", "cmapstream"}
+FontForms     == IdentityForms \cup BaseForms \cup CMapNameForms \cup DictForms
+FormClass(f)  == IF f \in IdentityForms THEN "identity" ELSE IF f \in BaseForms THEN "base"
+                 ELSE IF f \in CMapNameForms THEN "cmapname" ELSE "dict"
+
+StyleClass(sty) ==
+    CASE sty.k = "canon" -> "canon"
+      [] sty.k = "gap"   -> IF SeqSet(sty.s) \cap FfNulAtoms # {} THEN "grammar.ff-nul"
+                            ELSE IF sty.s # <<>> /\ SeqSet(sty.s) \subseteq BlankAtoms THEN "grammar.blank"
+                            ELSE IF sty.a \in BfGaps THEN "grammar.sep.bf" ELSE "grammar.sep.hdr"
+      [] sty.k = "hex"   -> "grammar.hex-ws"
+      [] sty.k = "empty" -> "grammar.empty-section"
+      [] sty.k = "head"  -> IF sty.a \in ExtraKeyHeads THEN "grammar.hdr-key" ELSE "grammar.hdr-form"
+      [] sty.k = "font"  -> "font.enc." \o FormClass(sty.a)
+      [] OTHER -> "?"
+
+\* ---- impl-shaped: does lopdf's grammar take the program, does get_font_encoding take the CMap?
+\* gdev switches (TRUE = as the code is):
+\*   g2 token separation inside bfchar/bfrange sections follows the per-gap combinators (blank inside an entry,
+\*      at least one white space after it); g6 the same for prolog, CMap dictionary, codespace section, trailer
+\*   g3 hexadecimal strings: no white space in a source code, in a target only after a complete 4-digit unit
+\*   g4 FF and NUL are not white space      g5 a section needs at least one entry
+\*   g7 only /CIDSystemInfo /CMapName /CMapType (1 to 4 of them) in the CMap dictionary
+\*   f1 /ToUnicode is looked at only when /Encoding is Identity-H, Identity-V or not a name
+BlankSet(gdev) == BlankAtoms \cup (IF gdev.g4 THEN {} ELSE FfNulAtoms)
+CombAccepts(gdev, c, as) ==
+    LET set == IF c \in {"s0", "s1"} THEN BlankSet(gdev) ELSE BlankSet(gdev) \cup EolAtoms \cup {"cmt"}
+    IN (c \in {"s0", "m0"} \/ as # <<>>) /\ SeqSet(as) \subseteq set
+EffComb(gdev, toks, i) ==
+    LET strict == IF toks[i].g \in BfGaps THEN gdev.g2 ELSE gdev.g6
+    IN IF strict THEN toks[i].c ELSE IF SelfDelim(toks, i) THEN "m0" ELSE "m1"
+ImplHexOK(gdev, sty, effect) ==
+    \/ sty.k # "hex" \/ ~effect
+    \/ ~gdev.g3                                             \* repaired: white space anywhere in the string
+    \/ /\ sty.a = "tgt" /\ sty.b \in {"unit", "trail"}      \* terminated(hex_u16, multispace0)
+       /\ SeqSet(sty.s) \subseteq BlankSet(gdev) \cup EolAtoms
+ImplParses(gdev, defs, cs, tv, sty) ==
+    LET toks == ProgramToks(defs, cs, tv, sty) IN
+    /\ \A i \in 1..Len(toks) : CombAccepts(gdev, EffComb(gdev, toks, i), GapAtoms(toks, i, sty))
+    /\ ImplHexOK(gdev, sty, Program(defs, cs, tv, sty) # Program(defs, cs, tv, Canon))
+    /\ (sty.k = "empty" => ~gdev.g5)
+    /\ (sty.k = "head" /\ sty.a \in ExtraKeyHeads => ~gdev.g7)
+\* Dictionary::get_font_encoding: match self.get(b"Encoding").and_then(Object::as_name)
+ImplUsesToUnicode(gdev, form) ==
+    IF gdev.f1 THEN form \in IdentityForms \cup DictForms        \* Identity-H/V arm, and the Err arm (absent, not a name)
+    ELSE TRUE
+ImplAccepts(gdev, defs, cs, tv, sty, form) == ImplParses(gdev, defs, cs, tv, sty) /\ ImplUsesToUnicode(gdev, form)
 
 -----------------------------------------------------------------------------
 (* Impl-shaped layer: ToUnicodeCMap { bf_ranges: [RangeInclusiveMap<u32, BfRangeTarget>; 4] } *)
